@@ -104,6 +104,37 @@ POSITIONS = [
     ("twice-plain", "k = ({w}, {v})\nj = {v}\ni = {w}\n", 0),
     ("twice-in-blocks", "GROUP = g\n k = {v} <m>\nEND_GROUP\nOBJECT = o\n k = {w} <m>\nEND_OBJECT\n", 0),
 ]
+
+
+def composed_positions(depth):
+    """thorough tier: every composition, up to `depth` levels, of the value contexts (first / last /
+    only element of a sequence, member of a set), ending in a bare number or a number with units,
+    optionally with units on the outermost sequence, inside every block wrapper.  Whether a dialect
+    accepts the construct at all is decided by loading it with the default classes."""
+    ctxs = [("sf", "(§, 1)"), ("sl", "(1, §)"), ("so", "(§)"), ("set", "{§, zz}")]
+    vals = [("", "§")]
+    level = [("", "§")]
+    for _ in range(depth):
+        level = [(n + "/" + cn if n else cn, t.replace("§", ct)) for n, t in level for cn, ct in ctxs]
+        vals += level
+    wrappers = [("top", "k = §\nj = 1\n"),
+                ("group", "GROUP = g\n a = 1\n k = §\nEND_GROUP\n"),
+                ("object", "OBJECT = o\n k = §\nEND_OBJECT = o\nz = 2\n"),
+                ("group-in-object", "OBJECT = o\n GROUP = g\n  k = §\n END_GROUP\nEND_OBJECT\n"),
+                ("object-in-object-twice", "OBJECT = o\n OBJECT = o\n  k = §\n END_OBJECT\n OBJECT = o\n  k = §\n END_OBJECT\nEND_OBJECT\n")]
+    out = []
+    for wn, wt in wrappers:
+        for vn, vt in vals:
+            for tn, tt in (("bare", "§"), ("units", "§ <m>")):
+                forms = [(vn + ":" + tn, vt.replace("§", tt))]
+                if vt.startswith("(") and tn == "bare":
+                    forms.append((vn + ":seq-units", vt + " <m>"))
+                for fn, ft in forms:
+                    t = wt.replace("§", ft).replace("{", "{{").replace("}", "}}").replace("§", "{v}")
+                    out.append(("%s|%s" % (wn, fn), t, 0))
+    return out
+
+
 ALT = {"1.50": "1.5", "0.10": "0.100", "1.0E3": "1000.0", "-2.50": "-2.5", "+.5": "0.50", "1.": "1", "100.000": "100",
        "7": "7.0", "-3": "-3.00", "16#FF#": "255.0", "0": "0.0"}
 # third field: 0 = all dialects; 1 = not ODL/PDS3 (ODL has no such construct); 2 = only where a
@@ -282,13 +313,15 @@ def shard(spec):
 
 
 def run(ctx):
+    if not ctx.quick:
+        POSITIONS.extend(composed_positions(3))      # module-level list: the forked workers inherit it
     specs = [(d, i) for d in impl.DIALECTS for i in range(len(POSITIONS))]
     acc = ctx.pmap(shard, specs)
     cov = {
         "evaluations": acc.n, "distinct_nontrivial": acc.nontrivial,
         "states": len(acc.sets["pos"]), "transitions": acc.traces,
         "traces_validated_against_impl": acc.traces,
-        "rule": "%d grammar positions x %d spellings (reals %r, integers %r) x 4 real classes (float, Decimal, a recording float subclass, a text-keeping class outside the numeric tower) x 2 quantity classes x "
+        "rule": "%d grammar positions (the curated ones; thorough adds every composition up to depth 3 of sequence-first / sequence-last / sequence-only / set-member contexts x bare | with units | units on the sequence x 5 block wrappers) x %d spellings (reals %r, integers %r) x 4 real classes (float, Decimal, a recording float subclass, a text-keeping class outside the numeric tower) x 2 quantity classes x "
                 "2 container-class sets x 5 parser/decoder families, full product; states = (position, "
                 "substitute combination); non-trivial = both configurations loaded and every node of the result "
                 "was type-checked and compared after mapping back" % (len(POSITIONS), len(REALS + INTS), REALS, INTS),
